@@ -216,4 +216,55 @@ def FL():
     return p
 
 
-CATALOG = {f.__name__: f for f in (F1, R2, R3, H2, H3, X, HIn, HIa, HIs, A, Ai, T, FL)}
+def Q():
+    """behaviours submit further events (process_event / enqueue_event) from guard, action, entry and exit"""
+    rq3 = Row('Q3', 'e0', 'Q4', act=8, guard=3); rq3.gsend = [('e2', 'p')]
+    m = Machine('Q', [['Q0', 'Q1', 'Q2', 'Q3', 'Q4']],
+                [St('Q1', entry_send=[('e2', 'p')]), St('Q2', exit_send=[('e3', 'q')])],
+                [Row('Q0', 'e0', 'Q1', act=('send', 1, [('e1', 'p')]), guard=1),
+                 Row('Q1', 'e1', 'Q2', act=2),
+                 Row('Q2', 'e2', 'Q3', act=3, guard=2),
+                 Row('Q3', 'e3', 'Q4', act=('send', 4, [('e0', 'q'), ('e1', 'p')])),
+                 Row('Q1', 'e2', None, act=5),
+                 Row('Q2', 'e3', None, act=6),
+                 Row('Q4', 'e1', None, act=7),
+                 rq3,
+                 Row('Q4', 'e2', None, act=9),
+                 Row('Q4', 'e3', 'Q0', act=10)])
+    return Program(m, ['e0', 'e1', 'e2', 'e3'])
+
+
+def Q1():
+    """like Q, but never more than one event pending at a time (chains of single submissions)"""
+    rq3 = Row('Q3', 'e0', 'Q4', act=8, guard=3); rq3.gsend = [('e2', 'p')]
+    m = Machine('Q1', [['Q0', 'Q1', 'Q2', 'Q3', 'Q4']],
+                [St('Q2', exit_send=[('e3', 'q')]), St('Q1', entry_send=[('e1', 'p')])],
+                [Row('Q0', 'e0', 'Q1', act=1, guard=1),
+                 Row('Q1', 'e1', 'Q2', act=('send', 2, [('e2', 'q')])),
+                 Row('Q2', 'e2', 'Q3', act=3, guard=2),
+                 Row('Q3', 'e3', 'Q4', act=('send', 4, [('e1', 'p')])),
+                 Row('Q2', 'e3', None, act=6),
+                 Row('Q4', 'e1', None, act=7),
+                 rq3,
+                 Row('Q4', 'e2', None, act=9),
+                 Row('Q4', 'e3', 'Q0', act=10)])
+    return Program(m, ['e0', 'e1', 'e2', 'e3'])
+
+
+def Q2():
+    """one nested submission per top-level call, from action / entry / exit / guard; the nested event never submits again"""
+    rg = Row('Q1', 'e0', None, act=8, guard=3); rg.gsend = [('e1', 'p')]
+    m = Machine('Q2', [['Q0', 'Q1', 'Q2']],
+                [St('Q2', entry_send=[('e3', 'q')], exit_send=[('e1', 'p')])],
+                [Row('Q0', 'e0', 'Q1', act=('send', 1, [('e1', 'p')]), guard=1),
+                 Row('Q1', 'e1', None, act=2),
+                 Row('Q1', 'e2', 'Q2', act=3),
+                 Row('Q2', 'e3', None, act=4),
+                 Row('Q2', 'e0', 'Q0', act=5, guard=2),
+                 Row('Q0', 'e1', None, act=6),
+                 rg,
+                 Row('Q0', 'e3', None, act=('send', 7, [('e1', 'q')]))])
+    return Program(m, ['e0', 'e1', 'e2', 'e3'])
+
+
+CATALOG = {f.__name__: f for f in (Q, Q1, Q2, F1, R2, R3, H2, H3, X, HIn, HIa, HIs, A, Ai, T, FL)}
